@@ -346,6 +346,14 @@ func c17Exec(in []string) []string {
 				// Header.Get reads the first line only
 				req.Header["Content-Length"] = append(req.Header["Content-Length"], "0", "17")
 			}
+			if teForm == 2 || teForm == 5 {
+				// a hand-built or relayed request that names a transfer coding next to its declared length:
+				// a length IS declared, which is all the answer depends on
+				req.TransferEncoding = []string{"chunked"}
+				if teForm == 5 {
+					req.TransferEncoding = []string{"identity"}
+				}
+			}
 		} else {
 			switch hdrForm {
 			case 1:
